@@ -52,4 +52,39 @@ theorem run_times_head (bo : Backoffs) (enforce : Bool) (script : List Att) (i :
     | raise c => exact ⟨[], rfl⟩
     | retry c ra => cases bo i <;> exact ⟨_, rfl⟩
 
+/-- The exact gap between the end of attempt `j` and the start of attempt `j+1`, whenever the
+    latter exists: the loop slept `effDelay enforce ra b` for the `j`-th backoff `b` and the
+    Retry-After `ra` of that attempt's verdict. -/
+theorem gap_eq_from (bo : Backoffs) (enforce : Bool) (script : List Att) (i : Nat) (t : Int)
+    (j : Nat) (tj tj' : Int) (a : Att)
+    (h0 : (run bo enforce script i t).times[j]? = some tj)
+    (h1 : (run bo enforce script i t).times[j + 1]? = some tj')
+    (ha : script[j]? = some a) :
+    ∃ b c ra, bo (i + j) = some b ∧ verdict a.fault = .retry c ra ∧
+      tj' - (tj + a.lat) = slept (effDelay enforce ra b) := by
+  induction script generalizing i t j with
+  | nil => simp at ha
+  | cons a0 rest ih =>
+    rw [run_cons] at h0 h1
+    cases hv : verdict a0.fault with
+    | success => simp [hv] at h1
+    | raise c => simp [hv] at h1
+    | retry c ra =>
+      cases hb : bo i with
+      | none => simp [hv, hb] at h1
+      | some b =>
+        simp only [hv, hb] at h0 h1
+        cases j with
+        | zero =>
+          simp at ha h0 h1
+          obtain ⟨tl, htl⟩ := run_times_head bo enforce rest (i + 1) (t + a0.lat + slept (effDelay enforce ra b))
+          rw [htl] at h1
+          simp at h1
+          subst ha h0
+          exact ⟨b, c, ra, by simpa using hb, hv, by omega⟩
+        | succ j =>
+          simp only [List.getElem?_cons_succ] at h0 h1 ha
+          obtain ⟨b', c', ra', hb', hv', hg⟩ := ih (i + 1) _ j h0 h1 ha
+          exact ⟨b', c', ra', by rw [← hb']; congr 1; omega, hv', hg⟩
+
 end Kopf.C12
